@@ -262,8 +262,8 @@ Fixpoint lexec_s (s : lstmt) (r : env) (saved : val) (pre : list entry) {struct 
   | LGuardIf g before i p =>
       if gon pre g then
         match before with
-        | Some n => let a := exec_l i r saved (pre ++ [(E_before_while_loop_body, n, Some (VBool true))]) in
-                    {| l_exc := l_exc a; l_env := l_env a; l_saved := l_saved a; l_log := (E_before_while_loop_body, n, Some (VBool true)) :: l_log a |}
+        | Some n => let a := exec_l i r saved (pre ++ [(E_before_while_loop_body, n, Some (cval (SBool true)))]) in
+                    {| l_exc := l_exc a; l_env := l_env a; l_saved := l_saved a; l_log := (E_before_while_loop_body, n, Some (cval (SBool true))) :: l_log a |}
         | None => exec_l i r saved pre
         end
       else exec_l p r saved pre
@@ -330,7 +330,7 @@ Fixpoint lref_s (quiet is_module : bool) (s : lstmt) (r : env) (pre : list entry
                             if truth vt then
                               (* the iteration is instrumented when the body guard is on as it starts; after_while_loop_iter closes it, also when it raises *)
                               let loud_b := negb quiet && (negb ge || gon (pre ++ lt) (GBody n)) in
-                              let lb := if loud_b then [(E_before_while_loop_body, n, Some (VBool true))] else [] in
+                              let lb := if loud_b then [(E_before_while_loop_body, n, Some (cval (SBool true)))] else [] in
                               let a := ref_l (negb loud_b) b r (pre ++ lt ++ lb) in
                               let la := if loud_b then [(E_after_while_loop_iter, n, Some VNone)] else [] in
                               match rl_exc a with
